@@ -44,6 +44,6 @@ RowOk(r) ==
 
 Init == k = 1
 Next == /\ k <= Len(Rows) /\ k' = k + 1
-RowsOk == k <= Len(Rows) => (RowOk(Rows[k]) \/ (PrintT(<<"MISMATCH", k, Rows[k], Expect(Rows[k])>>) /\ FALSE))
+RowsOk == k <= Len(Rows) => (RowOk(Rows[k]) \/ (PrintT(<<"MISMATCH", k, Rows[k], IF Rows[k].f = "adjust_owned" THEN "reservation" ELSE Expect(Rows[k])>>) /\ FALSE))
 Post == PrintT(<<"CONFROWS", Len(Rows), TLCGet("distinct")>>)
 =============================================================================
